@@ -1,211 +1,1 @@
-import SynthVerif.Src.Prelude
-import SynthVerif.Src.Deps
-/-! GENERATED by tools/rs2lean.py from /repo/src/quantizer.rs on every run.  Do not edit. -/
-set_option linter.unusedVariables false
-open F32 Rs
-namespace Src.quantizer
-
-def NUM_NOTES_PER_OCTAVE : F32 := (lit 12)
-
-def SEMITONE_WIDTH : F32 := (F32.div (lit 1) Src.quantizer.NUM_NOTES_PER_OCTAVE)
-
-def HALF_SEMITONE_WIDTH : F32 := (F32.div Src.quantizer.SEMITONE_WIDTH (lit 2))
-
-def HYSTERESIS : F32 := (F32.mul Src.quantizer.SEMITONE_WIDTH (lit (1 / 10)))
-
-def ONE_OCTAVE_IN_MICROVOLTS : Nat := 1000000
-
-def HALF_STEP_IN_MICROVOLTS : Nat := (Src.quantizer.ONE_OCTAVE_IN_MICROVOLTS / 12)
-
-def MAX_OCTAVE : Nat := 10
-
-def V_MAX : F32 := (F32.ofNat Src.quantizer.MAX_OCTAVE)
-
-structure Conversion where
-  note_num : Nat
-  stairstep : F32
-  fraction : F32
-deriving Inhabited
-
-structure Quantizer where
-  cached_conversion : Src.quantizer.Conversion
-  allowed : Nat
-deriving Inhabited
-
-structure Note where
-  _0 : Nat
-deriving Inhabited
-
-def Conversion.new : Option Src.quantizer.Conversion := do
-  return ({ note_num := 0, stairstep := (F32.ofBits 0xff7fffff), fraction := (lit 0) } : Src.quantizer.Conversion)
-
-def Quantizer.allow (self₀ : Src.quantizer.Quantizer) (notes : (List Src.quantizer.Note)) : Option Src.quantizer.Quantizer := do
-  let mut self := self₀
-  for n in notes do
-    let t1 ← ushl 16 1 n._0
-    self := { self with allowed := (self.allowed ||| t1) }
-  return self
-
-def Quantizer.forbid (self₀ : Src.quantizer.Quantizer) (notes : (List Src.quantizer.Note)) : Option Src.quantizer.Quantizer := do
-  let mut self := self₀
-  for n in notes do
-    let t1 ← ushl 16 1 n._0
-    self := { self with allowed := (self.allowed &&& (unot 16 t1)) }
-  if (self.allowed == 0) then
-    let t2 ← usub notes.length 1
-    let t3 ← sliceFrom notes t2
-    let t4 ← Src.quantizer.Quantizer.allow self t3
-    self := t4
-    return self
-  else
-    return self
-
-def Quantizer.is_allowed (self : Src.quantizer.Quantizer) (note : Src.quantizer.Note) : Option Bool := do
-  let t1 ← ushr 16 self.allowed note._0
-  return ((t1 &&& 1) == 1)
-
-def delta (v1 : Nat) (v2 : Nat) : Option Nat := do
-  if (decide (v1 < v2)) then
-    let t1 ← usub v2 v1
-    return t1
-  else
-    let t2 ← usub v1 v2
-    return t2
-
-def Note.new (n : Nat) : Option Src.quantizer.Note := do
-  let v1 : Nat ← (do
-    if (decide (n ≤ 11)) then
-      pure n
-    else
-      pure 11
-    )
-  return ({ _0 := v1 } : Src.quantizer.Note)
-
-def u8.from_Note (n : Src.quantizer.Note) : Option Nat := do
-  return n._0
-
-def Quantizer.new : Option Src.quantizer.Quantizer := do
-  let t1 ← Src.quantizer.Conversion.new
-  return ({ cached_conversion := t1, allowed := 4095 } : Src.quantizer.Quantizer)
-
-def Quantizer.find_nearest_note (self : Src.quantizer.Quantizer) (v_in : F32) : Option Nat := do
-  let vin_microvolts : Nat := (F32.toU32 (F32.mul v_in (F32.ofNat Src.quantizer.ONE_OCTAVE_IN_MICROVOLTS)))
-  let t1 ← udiv vin_microvolts Src.quantizer.ONE_OCTAVE_IN_MICROVOLTS
-  let octave_num_of_vin : Nat := t1
-  let mut octaves_to_search : (List Nat) := []
-  if (decide (1 ≤ octave_num_of_vin)) then
-    let t2 ← usub octave_num_of_vin 1
-    octaves_to_search := (hvPush 3 octaves_to_search t2)
-  octaves_to_search := (hvPush 3 octaves_to_search octave_num_of_vin)
-  if (decide (octave_num_of_vin < Src.quantizer.MAX_OCTAVE)) then
-    let t3 ← uadd U32.bound octave_num_of_vin 1
-    octaves_to_search := (hvPush 3 octaves_to_search t3)
-  let mut nearest_note_so_far_microvolts : Nat := 0
-  let mut smallest_delta_so_far : Nat := 4294967295
-  for octave in octaves_to_search do
-    for n in List.range 12 do
-      let t4 ← ushr 16 self.allowed n
-      let this_note_is_enabled : Bool := ((t4 &&& 1) == 1)
-      if this_note_is_enabled then
-        let t5 ← umul U32.bound n Src.quantizer.HALF_STEP_IN_MICROVOLTS
-        let t6 ← umul U32.bound octave Src.quantizer.ONE_OCTAVE_IN_MICROVOLTS
-        let t7 ← uadd U32.bound t5 t6
-        let candidate_note_microvolts : Nat := t7
-        let t8 ← Src.quantizer.delta vin_microvolts candidate_note_microvolts
-        let delta : Nat := t8
-        if (decide (delta < Src.quantizer.HALF_STEP_IN_MICROVOLTS)) then
-          let t9 ← udiv candidate_note_microvolts Src.quantizer.HALF_STEP_IN_MICROVOLTS
-          return (ucast 8 t9)
-        if (decide (smallest_delta_so_far < delta)) then
-          let t10 ← udiv nearest_note_so_far_microvolts Src.quantizer.HALF_STEP_IN_MICROVOLTS
-          return (ucast 8 t10)
-        if (decide (delta < smallest_delta_so_far)) then
-          smallest_delta_so_far := delta
-          nearest_note_so_far_microvolts := candidate_note_microvolts
-  let t11 ← udiv nearest_note_so_far_microvolts Src.quantizer.HALF_STEP_IN_MICROVOLTS
-  return (ucast 8 t11)
-
-def Note.C? : Option Src.quantizer.Note := do
-  let t1 ← Src.quantizer.Note.new 0
-  pure t1
-def Note.C : Src.quantizer.Note := (Note.C?).getD default
-
-def Note.CSHARP? : Option Src.quantizer.Note := do
-  let t1 ← Src.quantizer.Note.new 1
-  pure t1
-def Note.CSHARP : Src.quantizer.Note := (Note.CSHARP?).getD default
-
-def Note.D? : Option Src.quantizer.Note := do
-  let t1 ← Src.quantizer.Note.new 2
-  pure t1
-def Note.D : Src.quantizer.Note := (Note.D?).getD default
-
-def Note.DSHARP? : Option Src.quantizer.Note := do
-  let t1 ← Src.quantizer.Note.new 3
-  pure t1
-def Note.DSHARP : Src.quantizer.Note := (Note.DSHARP?).getD default
-
-def Note.E? : Option Src.quantizer.Note := do
-  let t1 ← Src.quantizer.Note.new 4
-  pure t1
-def Note.E : Src.quantizer.Note := (Note.E?).getD default
-
-def Note.F? : Option Src.quantizer.Note := do
-  let t1 ← Src.quantizer.Note.new 5
-  pure t1
-def Note.F : Src.quantizer.Note := (Note.F?).getD default
-
-def Note.FSHARP? : Option Src.quantizer.Note := do
-  let t1 ← Src.quantizer.Note.new 6
-  pure t1
-def Note.FSHARP : Src.quantizer.Note := (Note.FSHARP?).getD default
-
-def Note.G? : Option Src.quantizer.Note := do
-  let t1 ← Src.quantizer.Note.new 7
-  pure t1
-def Note.G : Src.quantizer.Note := (Note.G?).getD default
-
-def Note.GSHARP? : Option Src.quantizer.Note := do
-  let t1 ← Src.quantizer.Note.new 8
-  pure t1
-def Note.GSHARP : Src.quantizer.Note := (Note.GSHARP?).getD default
-
-def Note.A? : Option Src.quantizer.Note := do
-  let t1 ← Src.quantizer.Note.new 9
-  pure t1
-def Note.A : Src.quantizer.Note := (Note.A?).getD default
-
-def Note.ASHARP? : Option Src.quantizer.Note := do
-  let t1 ← Src.quantizer.Note.new 10
-  pure t1
-def Note.ASHARP : Src.quantizer.Note := (Note.ASHARP?).getD default
-
-def Note.B? : Option Src.quantizer.Note := do
-  let t1 ← Src.quantizer.Note.new 11
-  pure t1
-def Note.B : Src.quantizer.Note := (Note.B?).getD default
-
-def Note.from_u8 (n : Nat) : Option Src.quantizer.Note := do
-  let t1 ← Src.quantizer.Note.new n
-  return t1
-
-def Quantizer.convert (self₀ : Src.quantizer.Quantizer) (v_in : F32) : Option (Src.quantizer.Quantizer × Src.quantizer.Conversion) := do
-  let mut self := self₀
-  let t1 ← urem self.cached_conversion.note_num 12
-  let t2 ← Src.quantizer.Note.from_u8 t1
-  let t3 ← Src.quantizer.Quantizer.is_allowed self t2
-  if t3 then
-    let low_bound : F32 := (F32.sub self.cached_conversion.stairstep Src.quantizer.HYSTERESIS)
-    let high_bound : F32 := (F32.add (F32.add self.cached_conversion.stairstep Src.quantizer.SEMITONE_WIDTH) Src.quantizer.HYSTERESIS)
-    if ((F32.lt low_bound v_in) && (F32.lt v_in high_bound)) then
-      self := { self with cached_conversion.fraction := (F32.sub v_in self.cached_conversion.stairstep) }
-      return (self, self.cached_conversion)
-  let v_in : F32 := (F32.fmin (F32.fmax v_in (lit 0)) Src.quantizer.V_MAX)
-  let t4 ← Src.quantizer.Quantizer.find_nearest_note self v_in
-  self := { self with cached_conversion.note_num := t4 }
-  self := { self with cached_conversion.stairstep := (F32.div (F32.ofNat self.cached_conversion.note_num) (lit 12)) }
-  self := { self with cached_conversion.fraction := (F32.sub v_in self.cached_conversion.stairstep) }
-  return (self, self.cached_conversion)
-
-
-end Src.quantizer
+/-! GENERATED: quantizer.rs could not be read: Unsupported: parser: unexpected token '[' -/
